@@ -145,14 +145,15 @@ Definition addr_sort (l : list bytes) : list bytes := fold_right addr_insert [] 
 
 (** ** Loop 5 — a library loop reached from teleport: cosmos-sdk v0.45.2 types.TypedEventToEvent
 
-    Every event of x/xibc and x/aggregate is emitted through [EventManager.EmitTypedEvent], which calls
+    Until fix b88fea5 every event of x/xibc and x/aggregate was emitted through [EventManager.EmitTypedEvent], which calls
     [for k, v := range attrMap { attrs = append(attrs, abci.EventAttribute{Key: []byte(k), Value: v}) }]
-    and nothing else: the attribute list of the event IS the enumeration order.  (Outside /repo, hence not in the
-    inventory of [range] statements; the CALLS are inventoried as hazard kind "sdk-typed-event".) *)
+    and nothing else: the attribute list of the event IS the enumeration order (finding typed-event-attr-order, found
+    by the replay engine; [Refuted/C14_refuted.v]).  The loop is outside /repo, hence not in the inventory of [range]
+    statements; the CALLS are inventoried as hazard kind "sdk-typed-event" and are not on the allow-list. *)
 Definition typed_event_attrs {K V : Type} (l : list (K * V)) : list (K * V) :=
   fold_left (fun acc e => acc ++ [e]) l [].
 
-(** the repair ([types.EmitTypedEvent] of /var/tmp/fixes/C14): the list is then sorted by key *)
+(** the code now ([types.EmitTypedEvent], fix b88fea5): the list is then sorted by key (sort.SliceStable) *)
 Definition attr_le {V : Type} (a b : bytes * V) : Prop := addr_le (fst a) (fst b).
 
 Definition attr_sort_spec {V : Type} (sort : list (bytes * V) -> list (bytes * V)) : Prop :=
@@ -163,7 +164,8 @@ Definition typed_event_attrs_sorted {V : Type} (sort : list (bytes * V) -> list 
 
 (** ** An environment read: ETH seal verification
 
-    x/xibc/clients/light-clients/eth/types/header.go VerifyCascadingFields:
+    x/xibc/clients/light-clients/eth/types/header.go VerifyCascadingFields, as it was until fix b24f7c9 (finding
+    eth-ethash-tmpdir, D10; [Refuted/C14_refuted.v]):
     [cachedir, err := ioutil.TempDir("", ""); if err != nil { return errEthashStopped }; ...
      if err := ethash.VerifySeal(header, false); err != nil { return ErrHeader }; return nil]
     [tmp_ok]: does ioutil.TempDir succeed ON THIS NODE; [seal_ok]: the ethash verdict for the header (a function
@@ -171,7 +173,7 @@ Definition typed_event_attrs_sorted {V : Type} (sort : list (bytes * V) -> list 
 Definition verify_cascading (tmp_ok seal_ok : bool) : outcome unit :=
   if tmp_ok then (if seal_ok then Ok tt else Err) else Err.
 
-(** the repair: in-memory cache, no directory *)
+(** the code now (fix b24f7c9): in-memory cache, no directory — the environment is not consulted *)
 Definition verify_cascading_in_memory (tmp_ok seal_ok : bool) : outcome unit :=
   if seal_ok then Ok tt else Err.
 
@@ -191,21 +193,21 @@ Local Open Scope string_scope.
 Definition site_table : list (string * string * string * string * disposition) := [
   ("adapter/gov/adapter.go", "NewHookAdapter", "abe7dbd2d6c78573", "0c03d1933616a7f1", Proved "handler_loop_perm");
   ("adapter/staking/adapter.go", "NewHookAdapter", "d55918f439e7900a", "1ea49b5cef02a55c", Proved "handler_loop_perm");
-  ("app/app.go", "(*Teleport).BlockedAddrs", "47b8a240e28de7b6", "1923d4adb8ecb2dd", Proved "insert_loop_perm");
-  ("app/app.go", "(*Teleport).ModuleAccountAddrs", "8b8d88fae09df518", "908ad5c64d780d61", Proved "insert_loop_const_perm");
+  ("app/app.go", "*Teleport.BlockedAddrs", "47b8a240e28de7b6", "1923d4adb8ecb2dd", Proved "insert_loop_perm");
+  ("app/app.go", "*Teleport.ModuleAccountAddrs", "8b8d88fae09df518", "908ad5c64d780d61", Proved "insert_loop_const_perm");
   ("app/app.go", "GetMaccPerms", "c000710fa0950b50", "65321bf763126ecf", Proved "copy_loop_perm");
   ("app/app.go", "GetStoreKeys", "b85e3f538d622cf5", "04ff6b29cdf3cd5c", Proved "copy_loop_perm");
   ("x/xibc/clients/light-clients/bsc/types/header.go", "verifySeal", "9178e3619a9a33bf", "5b87e3f6dc2de05f", Proved "recents_loop_perm");
-  ("x/xibc/clients/light-clients/bsc/types/snapshot.go", "(*snapshot).validators", "6a066d0ac90ca0cd", "5389bb7093870470", Proved "validators_loop_perm");
+  ("x/xibc/clients/light-clients/bsc/types/snapshot.go", "*snapshot.validators", "6a066d0ac90ca0cd", "5389bb7093870470", Proved "validators_loop_perm");
   (* ethash remote-sealer goroutine (mining work distribution).  Started by New() -> startRemoteSealer and stopped by
      Close(); its maps (works, rates) are filled only by the RPC channels submitWorkCh / submitRateCh, which nothing
      in teleport writes to; VerifySeal reads none of its state.  [total += rate.rate] is a FLOAT sum and is
      order-dependent: it feeds fetchRateCh (Hashrate()) only. *)
-  ("x/xibc/clients/light-clients/eth/types/sealer.go", "(*remoteSealer).loop", "6a4b56cc9067b274", "2611971c6e905a0c",
+  ("x/xibc/clients/light-clients/eth/types/sealer.go", "*remoteSealer.loop", "6a4b56cc9067b274", "2611971c6e905a0c",
      Argued "float sum of reported hash rates, order-dependent; reaches only Ethash.Hashrate() (mining statistics); the rates map is filled through submitRateCh (RPC), never by the state machine");
-  ("x/xibc/clients/light-clients/eth/types/sealer.go", "(*remoteSealer).loop", "04c174fb6bf56429", "2611971c6e905a0c",
+  ("x/xibc/clients/light-clients/eth/types/sealer.go", "*remoteSealer.loop", "04c174fb6bf56429", "2611971c6e905a0c",
      Argued "deletes stale mining work packages from remoteSealer.works; filled through workCh (Seal), never by header verification");
-  ("x/xibc/clients/light-clients/eth/types/sealer.go", "(*remoteSealer).loop", "0dcd198901d8f37f", "2611971c6e905a0c",
+  ("x/xibc/clients/light-clients/eth/types/sealer.go", "*remoteSealer.loop", "0dcd198901d8f37f", "2611971c6e905a0c",
      Argued "drops hash-rate reports older than 10 s (time.Since) from remoteSealer.rates; mining statistics only")
 ].
 
